@@ -2,14 +2,14 @@
 //@ props: C04 C08
 //@ implicit: C08
 //@ source: src/debugger/debugee/dwarf/unit/mod.rs
-//@ fn: FatDieRef<Function>::prolog_end_place, BsUnit::find_lines_for_range, BsUnit::find_place_by_idx, BsUnit::find_place_by_pc, BsUnit::find_exact_place_by_pc, BsUnit::find_eb, PlaceDescriptor::from, PlaceDescriptor::next, PlaceDescriptor::prev, LineRow::{is_stmt,prolog_end,epilog_begin,end_sequence}
+//@ fn: DebugInformation::find_closest_place (per-unit row selection loop), BsUnit::line, FatDieRef<Function>::prolog_end_place, BsUnit::find_lines_for_range, BsUnit::find_place_by_idx, BsUnit::find_place_by_pc, BsUnit::find_exact_place_by_pc, BsUnit::find_eb, PlaceDescriptor::from, PlaceDescriptor::next, PlaceDescriptor::prev, LineRow::{is_stmt,prolog_end,epilog_begin,end_sequence}
 //@ shim: src/debugger/debugee/dwarf/unit/mod.rs :: struct LineRow :: address: u64, file_index: u64, line: u64, column: u64, flags: u8
 //@ shim: src/debugger/debugee/dwarf/unit/mod.rs :: struct BsUnit :: lines: Vec<LineRow>
 //@ shim: src/debugger/debugee/dwarf/unit/mod.rs :: struct PlaceDescriptor :: file_idx: u64, address: GlobalAddress, line_number: u64, pos_in_unit: usize, is_stmt: bool, column_number: u64, epilog_begin: bool, end_sequence: bool, prolog_end: bool, unit: &'a BsUnit
 //@ assume: the contracts of the outlined binary-search expressions are validated (bounded: <= 4 rows) by the Kani units C04.outline.* on the verbatim expression text
 //@ assume: BsUnit.lines is sorted by address (established by `lines.sort_unstable_by_key(|x| x.address)` in DwarfUnitParser::parse; std sort contract assumed)
 //@ assume: PlaceDescriptor.file (`unit.files.get(file_index).expect(..)`) is dropped from the shim: the `expect` on a file index outside the unit's file table is NOT covered
-//@ notcovered: find_closest_place (line -> rows), one breakpoint per instantiation, the line+1 fallback, comparison with an independent DWARF reader
+//@ notcovered: the outer loops of find_closest_place (file index lookup, line+1 fallback, one breakpoint per subprogram via HashSet), comparison with an independent DWARF reader
 use vstd::prelude::*;
 verus! {
 //@ include: prelude.rs
@@ -281,6 +281,44 @@ impl BsUnit {
 //@   loop 0 invariant I_lr2: forall|i: int| 0 <= i < result@.len() ==> describes(#[trigger] result@[i], self, start_place_pos_in_unit + i)
 //@ end
 }
+
+/// a place chosen for `file:line`: a statement row of that line, taken from the file's row list
+pub open spec fn ok_place(p: PlaceDescriptor, u: &BsUnit, file_lines: Seq<usize>, needle_line: u64) -> bool {
+    &&& describes(p, u, p.pos_in_unit as int)
+    &&& exists|k: int| 0 <= k < file_lines.len() && #[trigger] file_lines[k] == p.pos_in_unit
+    &&& u.lines@[p.pos_in_unit as int].line == needle_line
+    &&& u.lines@[p.pos_in_unit as int].flags & 2 == 2
+}
+
+impl BsUnit {
+//@ extract: impl BsUnit / fn line
+//@   ret: r
+//@   requires R_line: index < self.lines@.len()
+//@   ensures E_line: *r == self.lines@[index as int]
+//@ end
+}
+
+//@ extract: impl DebugInformation / fn find_closest_place
+//@   file: src/debugger/debugee/dwarf/mod.rs
+//@   fragment: `let mut suitable_places_in_unit = vec![];` .. `i += 1; }`
+//@   sig: fn closest_places_in_unit<'a>(unit: &'a BsUnit, file_lines: &Vec<usize>, needle_line: u64) -> (r: Vec<PlaceDescriptor<'a>>)
+//@   tail: suitable_places_in_unit
+//@   isolation: on
+//@   requires R_fl: forall|k: int| 0 <= k < file_lines@.len() ==> #[trigger] file_lines@[k] < unit.lines@.len()
+//@   ensures E_cl1: forall|j: int| 0 <= j < r@.len() ==> ok_place(#[trigger] r@[j], unit, file_lines@, needle_line)
+//@   proof before `let mut i = 0;`: vstd::std_specs::vec::axiom_spec_len(file_lines);
+//@   loop 0 invariant I_cl0: file_lines@.len() <= usize::MAX && forall|k: int| 0 <= k < file_lines@.len() ==> #[trigger] file_lines@[k] < unit.lines@.len()
+//@   loop 0 invariant I_cl1: i <= file_lines@.len()
+//@   loop 0 invariant I_cl2: forall|j: int| 0 <= j < suitable_places_in_unit@.len() ==> ok_place(#[trigger] suitable_places_in_unit@[j], unit, file_lines@, needle_line)
+//@   loop 0 decreases: file_lines@.len() - i
+//@   proof before `let mut ahead_idx = i + 1;`: let ghost i0 = i;
+//@   loop 1 invariant I_cl6: file_lines@.len() <= usize::MAX && forall|k: int| 0 <= k < file_lines@.len() ==> #[trigger] file_lines@[k] < unit.lines@.len()
+//@   loop 1 invariant I_cl3: i0 < ahead_idx <= file_lines@.len() && i0 < file_lines@.len()
+//@   loop 1 invariant_except_break I_cl7: i == i0 && line_idx == file_lines@[i0 as int]
+//@   loop 1 invariant I_cl4: next_line_row.line == needle_line && (next_line_row.flags & 2 == 2) && *next_line_row == unit.lines@[file_lines@[i0 as int] as int]
+//@   loop 1 ensures I_cl5: i0 <= i < file_lines@.len() && line_idx == file_lines@[i as int] && unit.lines@[line_idx as int].line == needle_line && (unit.lines@[line_idx as int].flags & 2 == 2)
+//@   loop 1 decreases: file_lines@.len() - ahead_idx
+//@ end
 
 pub struct DwarfError;
 /// FatDieRef<'_, Function>: only the walk over line rows is under contract; the DIE / range access
